@@ -1498,8 +1498,9 @@ mod convert {
                 ConvertLineState::ReadRow => {}
                 ConvertLineState::SetAddress | ConvertLineState::ConvertRow => {
                     start = self.address;
-                    rows.push(self.convert_row()?);
+                    // Update the state first so that an error is not repeated forever.
                     self.state = ConvertLineState::ReadRow;
+                    rows.push(self.convert_row()?);
                 }
             }
             while let Some(row) = self.read_row()? {
